@@ -12,6 +12,9 @@ One program `c<k>` = two modules `c<k>a`, `c<k>b` (all functions exported, cross
   cb             function address taken as an operand and passed to C (extcb), which calls it back twice
   w              8 integer + 9 double parameters (stack-passed arguments, all xmm argument registers)
   cw             calls `w` directly and through C (extcbw)
+  bf<j> / bc<j>  functions with a by-value block parameter (blk, blk1..blk4, rblk; sizes 8..40) preceded by 0..7
+                 integer and 0..9 double parameters and followed by an integer and a double one; `bc` passes the
+                 block from MIR, the plan command `callb` from C (the harness places the arguments per the psABI)
   e0 (a, b)      random entry functions (FuncGen, memory, alloca, switch, calls/inlines of all of the above)
 Well-definedness is by construction (see mirgen); function addresses never flow into results.
 A *plan* is a sequence of C-level calls (`prog`, `callh`, `wide`) interleaved with `addrs` samples;
@@ -142,9 +145,76 @@ def lref_func(r, name, tab):
     return L
 
 
+# ---- by-value block parameters: every block class at every register-boundary position
+BLOCK_VARIANTS = [(0, 8), (0, 16), (0, 24), (0, 40), (1, 8), (1, 12), (1, 16), (2, 8), (2, 16), (3, 16), (4, 16), (5, 16), (5, 24)]
+BLOCK_GRID = [(ni, nf, c, sz) for (c, sz) in BLOCK_VARIANTS for ni in range(8) for nf in range(10)]   # 1040 positions
+BLK_NAME = {0: "blk", 1: "blk1", 2: "blk2", 3: "blk3", 4: "blk4", 5: "rblk"}
+
+
+def block_fields(cls, size):
+    """(offset, kind) of the pieces of the block the callee reads; same table as harness/c03_iface.c"""
+    if cls in (0, 5):
+        return [(o, "i64") for o in range(0, size - 7, 8)]
+    if cls == 1:
+        return [(0, "i64")] + ([(8, "i32")] if size == 12 else [(8, "i64")] if size == 16 else [])
+    if cls == 2:
+        return [(0, "d")] + ([(8, "d")] if size == 16 else [])
+    if cls == 3:
+        return [(0, "i64"), (8, "d")]
+    return [(0, "d"), (8, "i64")]
+
+
+def block_sig(ni, nf, cls, size):
+    return ", ".join([f"i64:a{i}" for i in range(ni)] + [f"d:x{i}" for i in range(nf)] + [f"{BLK_NAME[cls]}:{size}(s)", "i64:g", "d:y"])
+
+
+def block_func(name, ni, nf, cls, size):
+    """callee: an order-sensitive hash of every argument, of the block's pieces and of the arguments after it"""
+    L = [f"{name}: func i64, {block_sig(ni, nf, cls, size)}", "  local i64:r, i64:t, d:v", "  mov r, 17"]
+    for i in range(ni):
+        L += ["  mul r, r, 1000003", f"  xor r, r, a{i}"]
+    for j in range(nf):
+        L += [f"  dmul v, x{j}, 4.0", "  d2i t, v", "  mul r, r, 31", "  add r, r, t"]
+    for off, k in block_fields(cls, size):
+        if k == "d":
+            L += [f"  dmov v, d:{off}(s)", "  dmul v, v, 4.0", "  d2i t, v", "  mul r, r, 31", "  add r, r, t"]
+        else:
+            L += [f"  mov t, {k}:{off}(s)", "  mul r, r, 1000003", "  xor r, r, t"]
+    L += ["  mul r, r, 1000003", "  xor r, r, g", "  dmul v, y, 4.0", "  d2i t, v", "  mul r, r, 31", "  add r, r, t"]
+    if cls == 5:
+        L += ["  mov i64:0(s), r"]
+    L += ["  ret r", "  endfunc"]
+    return L
+
+
+def block_caller(r, name, callee, proto, ni, nf, cls, size):
+    """MIR caller (helper signature): builds the block in its frame and passes it by value"""
+    nd = max(nf, 1)
+    L = [f"{name}: func {HHDR}", "  local i64:p, i64:r, i64:t, d:v, d:w, " + ", ".join(f"d:z{j}" for j in range(nd)),
+         "  alloca p, 64", "  and t, a0, 65535", "  i2d v, t", "  dmul v, v, 0.25"]
+    for j in range(nf):
+        L.append(f"  dadd z{j}, v, {1.5 * (j + 1)}")
+    for off, k in block_fields(cls, size):
+        c = 1 + r.below(1 << 20)
+        if k == "d":
+            L += [f"  dadd w, v, {0.25 * (c % 4000)}", f"  dmov d:{off}(p), w"]
+        else:
+            L += [f"  xor t, a1, {c}", f"  mov {k}:{off}(p), t"]
+    ints = []
+    for i in range(ni):
+        ints.append(["a0", "a1", str(1 + r.below(1 << 30)), "t"][i % 4])
+    args = ints + [f"z{j}" for j in range(nf)] + [f"{BLK_NAME[cls]}:{size}(p)", "a1", "v"]
+    L += [f"  call {proto}, {callee}, r, " + ", ".join(args)]
+    if cls == 5:
+        L += ["  mov t, i64:0(p)", "  mul r, r, 31", "  xor r, r, t"]
+    L += ["  ret r", "  endfunc"]
+    return L
+
+
 class C03Prog:
-    def __init__(self, name, mods, entries, helpers_sig, wides, stats):
+    def __init__(self, name, mods, entries, helpers_sig, wides, stats, blocks=()):
         self.name, self.mods, self.entries, self.hfuncs, self.wides, self.stats = name, mods, entries, helpers_sig, wides, stats
+        self.blocks = list(blocks)   # (function, ni, nf, cls, size)
 
     def text(self):
         return "".join(m.text() for m in self.mods)
@@ -169,7 +239,7 @@ def fix_imports(mods):
                         m.imports.add(c)
 
 
-def gen_c03_program(rng, name, opts=None, many_doubles=False):
+def gen_c03_program(rng, name, opts=None, many_doubles=False, block_positions=()):
     A, B = Mod(name + "a"), Mod(name + "b")
     for m in (A, B):
         m.protos |= {PH, PCB, PCBW, PTAB, PW}
@@ -219,7 +289,19 @@ def gen_c03_program(rng, name, opts=None, many_doubles=False):
     cw = name + "a_cw"
     A.imports.add(w)
     A.raw(cw_func(rng, cw, w), cw)
-    hs = a_h + b_h + [r0, ma, mb, na, ap, cb, cw, lr]
+    # functions with a by-value block parameter (callee in one module, MIR caller in the other)
+    blocks, bcs = [], []
+    for j, (ni, nf, cls, size) in enumerate(block_positions):
+        callee_mod, caller_mod = (A, B) if j % 2 == 0 else (B, A)
+        cm, rm = ("a", "b") if j % 2 == 0 else ("b", "a")
+        bf, bc, pb = f"{name}{cm}_bf{j}", f"{name}{rm}_bc{j}", f"pb{j}"
+        callee_mod.raw(block_func(bf, ni, nf, cls, size), bf)
+        caller_mod.protos.add(f"{pb}: proto i64, {block_sig(ni, nf, cls, size)}")
+        caller_mod.imports.add(bf)
+        caller_mod.raw(block_caller(rng, bc, bf, pb, ni, nf, cls, size), bc)
+        blocks.append((bf, ni, nf, cls, size))
+        bcs.append(bc)
+    hs = a_h + b_h + [r0, ma, mb, na, ap, cb, cw, lr] + bcs
     eo = dict(opts or {})
     if many_doubles:
         eo.update(ndbl=12)
@@ -236,7 +318,8 @@ def gen_c03_program(rng, name, opts=None, many_doubles=False):
     stats["callback_funcs"] = 2
     stats["many_doubles"] = 1 if many_doubles else 0
     stats["lref_tables"] = 1
-    return C03Prog(name, [A, B], [ea, eb], [r0, ma, mb, na, ap, cb, cw, lr, a_h[0], b_h[0]], [w], stats)
+    stats["block_param_funcs"] = len(blocks)
+    return C03Prog(name, [A, B], [ea, eb], [r0, ma, mb, na, ap, cb, cw, lr, a_h[0], b_h[0]] + bcs, [w], stats, blocks)
 
 
 HARGS = [(3, 5, 1.0), (7, 0xffffffffffffffff, -2.5), (0x123456789, 12, 1e300), (6, 1 << 40, 0.0)]
@@ -255,6 +338,8 @@ def calls_for(P, argsets, rng, nh=5):
         calls.append(f"callh {f} {a[0]:x} {a[1]:x} {mirgen_dbits(a[2]):x}")
     for wname in P.wides:
         calls.append(f"wide {wname} {rng.below(1 << 30):x}")
+    for (bf, ni, nf, cls, size) in P.blocks:
+        calls.append(f"callb {bf} {ni} {nf} {cls} {size} {rng.below(1 << 30):x}")
     return calls
 
 
